@@ -503,7 +503,10 @@ func (c *Conn) CanOpenStream() bool {
 		return false
 	}
 
-	return atomic.LoadInt32(&c.openStreams) < int32(atomic.LoadUint32(&c.maxStreams))
+	// SETTINGS_MAX_CONCURRENT_STREAMS is any 32-bit value: as an int32, one of
+	// 2^31 or more (a server's way of saying "no limit") came out negative and
+	// no stream could ever be opened.
+	return int64(atomic.LoadInt32(&c.openStreams)) < int64(atomic.LoadUint32(&c.maxStreams))
 }
 
 // Closed indicates whether the connection is closed or not.
